@@ -74,8 +74,8 @@ MANIFEST = dict(
         "evalSkip4; oracle: kernel on the filtered vectors, symmetry, refusal of kernels without SUPPORTS_VARIABLE_INPUT_SIZE). "
         "RE-USED OUTPUT OBJECTS (op stale, every case): both derivative calls of every kernel into pre-filled gradient objects must return what "
         "a call into a fresh object returns (calculateKernelMatrixParameterDerivative re-uses one blockGradient). "
-        "Two genuine defects found: F-C05-6 gaussian-task-kernel-stale-matrix and F-C05-7 pointset-parameter-derivative-not-cleared (open, "
-        "patches in findings_proposed/). "
+        "Two genuine defects found there: F-C05-6 gaussian-task-kernel-stale-matrix and F-C05-7 pointset-parameter-derivative-not-cleared (both "
+        "repaired in /repo since: 9339bce1, ceadede4). "
         "MODELKERNEL OVER MODELS WITH STATE (branch str3-c05; every run, both tiers): ModelKernel is exercised over ConcatenatedModel chains - "
         "1-3 dense layers (linear / rectifier / tanh / logistic), element-wise NeuronLayers, softmax / normalizer row layers, frozen layers - whose "
         "State holds the hidden responses of ONE batch (ops mnet / mn <op>, harness builds the real LinearModel<..,Act> / NeuronLayer / "
@@ -124,11 +124,10 @@ MANIFEST = dict(
        "log-gammas 0 only, arbitrary ones run oracle-only; adaptive sub-kernels and unconstrained encodings are not in the Lean model "
        "(oracle-only, toleranced); PSD after a history follows from kernel_psd_equalDim applied to the reconfigured expression, an "
        "explicit admissibility-preservation theorem for setFactor/setParams is not stated; read() from an archive into a differently "
-       "configured object is not exercised here (C18). OPEN findings F-C05-6 gaussian-task-kernel-stale-matrix (computeMatrix accumulates into the old table; setGamma/setWidth do not recompute; "
+       "configured object is not exercised here (C18). Findings F-C05-6 gaussian-task-kernel-stale-matrix (computeMatrix accumulated into the old table; setGamma/setWidth did not recompute; "
        "corpus/C05/gaussian_task_kernel_stale_matrix.txt) and F-C05-7 pointset-parameter-derivative-not-cleared (gradient resized, not cleared; "
-       "calculateKernelMatrixParameterDerivative wrong for > 1 batch; corpus/C05/pointset_parameter_derivative_not_cleared.txt): while the corpus "
-       "probes fail the generated stream does not reconfigure live task kernels and does not call the PointSetKernel parameter derivative into "
-       "re-used gradients (on a patched tree both are generated: validated with VERIF_REPO). F-C05-5 product-stale-parameter-count is repaired "
+       "corpus/C05/pointset_parameter_derivative_not_cleared.txt) are repaired in /repo (9339bce1, ceadede4): the corpus probes pass and the generated stream "
+       "reconfigures live task kernels and calls the PointSetKernel parameter derivative into re-used gradients (the probes switch these off again on a tree where the defects are back). F-C05-5 product-stale-parameter-count is repaired "
        "(f6f5bb01; the probe passes, sums below products are made adaptive). Four genuine defects found earlier by this check "
        "(normalized-stateless-block, discrete-block-ignores-indices, monomial-degree1-input-derivative, product-uninitialised-parameter-count) "
        "are repaired in /repo by fix: commits ceaec0f1, f2e5cee8, e15da9fc, dba592e9; their inputs stay in corpus/C05 and the model is the repaired code.",
